@@ -473,6 +473,27 @@ func main() {
 			facts = append(facts, fact{"rpcRefused", "def rpcRefused (st : NodeState) (isSync : Bool) : Bool := unsupported_rpcRefused", "node_rpc.go:processRPC", "", false})
 		}
 	}
+	// F8 checkSuspend: the comparison operators of the two conditions
+	{
+		fn := findFunc(node, "Node", "checkSuspend")
+		addCmpOriented("cmpSuspendUndetermined", fn, "node.go:checkSuspend", 0, "newUndeterminedEvents", "newUndeterminedEvents", "SuspendLimit")
+		addCmpOriented("cmpEvictedRemovedPositive", fn, "node.go:checkSuspend", 0, "removedRound", "removedRound > 0")
+		addCmpOriented("cmpEvictedAfterAccepted", fn, "node.go:checkSuspend", 0, "removedRound", "removedRound", "acceptedRound")
+		addCmpOriented("cmpEvictedReached", fn, "node.go:checkSuspend", 0, "LastConsensusRound", "LastConsensusRound", "removedRound")
+		ok := false
+		if fn != nil {
+			b := src(fn.Body)
+			ok = strings.Contains(b, "if tooManyUndeterminedEvents || evicted {") && strings.Contains(b, "n.Suspend()") &&
+				strings.Contains(b, "len(n.core.getUndeterminedEvents()) - n.initialUndeterminedEvents") &&
+				strings.Contains(b, "n.conf.SuspendLimit*n.core.validators.Len()") &&
+				strings.Contains(b, "evicted := n.core.hg.LastConsensusRound != nil && n.core.removedRound > 0 && n.core.removedRound > n.core.acceptedRound && *n.core.hg.LastConsensusRound >= n.core.removedRound")
+		}
+		v := "true"
+		if !ok {
+			v = "unsupported_suspendShape"
+		}
+		facts = append(facts, fact{"suspendShape", "def suspendShape : Bool := " + v, "node.go:checkSuspend", "suspend iff tooManyUndeterminedEvents || evicted (shape of the two definitions)", ok})
+	}
 	// F6 order of steps
 	{
 		fnChk := findFunc(core, "core", "checkFastForward")
